@@ -517,6 +517,8 @@ package lang
 //@   ensures[C08] stack-restored: stackKept(e, old(e.stackTop), result)
 //@   ensures[C11] fault-latched: $faulted <==> isFault(result)
 //@   ensures evok: evOK(e)
+//@   ensures[C07,C08] bare-return-clears-the-return-slot: istype(stmt, *StatementReturn) && as(stmt, *StatementReturn).Expr == nil ==> result == errReturn && e.returnVal == nil
+//@   ensures[C07,C08] return-signals: istype(stmt, *StatementReturn) && result == nil ==> false
 //@   init $lastOut = nil
 //@   after Evaluator.evalExpr: $lastTruthy = (ret1 == nil ? specTruthy(ret0.Value) : false)
 //@   after Evaluator.evalExpr: $lastExprArg = arg1
@@ -575,7 +577,11 @@ package lang
 //@   ensures[C05] unknown-operator-is-error: expr.OpToken.Tag != Bang && expr.OpToken.Tag != Plus && expr.OpToken.Tag != Minus && expr.OpToken.Tag != PlusPlus && expr.OpToken.Tag != MinusMinus ==> err != nil
 //@   ensures evok: evOK(e)
 
-//@ func Evaluator.evalBinaryExpr [C01,C05,C08,C11]
+// C09 (an expression without assignment or mutating call never changes the input): evalBinaryExpr itself
+// stores nothing into existing values except the receiver link of a looked-up member; every other change
+// is made by a callee (evalAssignment for =, the operand evaluations, method calls).
+//@ func Evaluator.evalBinaryExpr [C01,C05,C08,C09,C11]
+//@   storesonly[C09] operators-store-nothing-but-the-receiver-link: fresh, Value.Binding
 //@   modifies valueHeap, e.stackTop, e.returnVal
 //@   requires evOK(e) && expr != nil && !$faulted
 //@   updates $faulted, $out
@@ -709,7 +715,8 @@ package lang
 //@   ensures[C11] error-iff-function: (err != nil) <==> (from.Value.Tag == ValueFn || from.Value.Tag == ValueNativeFn)
 //@   ensures[C01] errkind: err == nil || isPlainErr(err)
 //@   ensures[C11] fault-latched: $faulted <==> err != nil
-//@   ensures[C09] tag-copied: err == nil ==> to.Value.Tag == old(from.Value.Tag)
+//@   ensures[C09] tag-copied: err == nil ==> to.Value.Tag == (old(from.Value.Tag) == ValueUnknown ? ValueUnknown : old(from.Value.Tag))
+//@   ensures[C09] scalar-copies-are-detached: err == nil && old(from.Value.Tag) != ValueArray && old(from.Value.Tag) != ValueObj && old(from.Value.Tag) != ValueUnknown ==> to.Value.ParentObj == nil
 //@   modifies to.Value
 
 // Native functions (prototype methods and builtins) are called through Value.NativeFn.
@@ -722,7 +729,7 @@ package lang
 
 // ---------------------------------------------------------------- members (C09, C20) -- safety and error protocol
 
-//@ func Value.GetMember [C01,C09,C11,C15]
+//@ func Value.GetMember [C01,C09,C10,C11,C15]
 //@   requires v != nil && !$faulted
 //@   updates $faulted
 //@   modifies nothing
@@ -733,6 +740,7 @@ package lang
 //@   ensures[C09] object-own-member: v.Tag == ValueObj && err == nil && has(*v.Obj, specStr(member)) ==> result0 == (*v.Obj)[specStr(member)]
 //@   ensures[C16] object-absent-without-prototype: v.Tag == ValueObj && err == nil && !has(*v.Obj, specStr(member)) && v.Proto == nil ==> result0 == nil
 //@   ensures[C09] string-index: v.Tag == ValueStr && member.Tag == ValueNum ==> err == nil && result0 != nil && fresh(result0)
+//@   ensures[C10] prototype-members-are-handed-out-as-copies: err == nil && result0 != nil && !(v.Tag == ValueArray && member.Tag == ValueNum) && !(v.Tag == ValueObj && has(*v.Obj, specStr(member))) ==> fresh(result0)
 //@   ensures[C09,C11] detached-results-remember-receiver: err == nil && result0 != nil && fresh(result0) && ((v.Tag == ValueStr && member.Tag == ValueNum) || result0.Value.Tag == ValueNativeFn || result0.Value.Tag == ValueFn) ==> result0.Value.ParentObj == v
 //@   ensures[C01] errkind: err == nil || isPlainErr(err)
 //@   ensures[C11] fault-latched: $faulted <==> err != nil
@@ -794,7 +802,8 @@ package lang
 //@   ensures[C11] no-fault: !$faulted
 //@   ensures[C02] rules-partitioned-by-kind: listKind(result.beginRules, BeginRule) && listKind(result.beginFileRules, BeginFileRule) && listKind(result.endRules, EndRule) && listKind(result.endFileRules, EndFileRule) && listKind(result.patternRules, PatternRule)
 
-//@ func Evaluator.evalRules [C01,C02,C08,C11]
+//@ ghost $sawNext bool
+//@ func Evaluator.evalRules [C01,C02,C07,C08,C11]
 //@   modifies valueHeap, e.stackTop, e.returnVal
 //@   requires evOK(e) && !$faulted
 //@   updates $faulted, $out
@@ -805,9 +814,14 @@ package lang
 //@   ensures evok: evOK(e) && e.ruleRoot == old(e.ruleRoot)
 //@   after Evaluator.evalExpr: $lastTruthy = (ret1 == nil ? specTruthy(ret0.Value) : false)
 //@   after Evaluator.evalExpr: $lastExprArg = arg1
+//@   init $sawNext = false
+//@   after Evaluator.evalExpr: $sawNext = $sawNext || ret1 == errNext
+//@   after Evaluator.evalStatement: $sawNext = $sawNext || ret0 == errNext
+//@   assert[C02,C07] no-pattern-evaluated-after-next: !$sawNext @ Evaluator.evalExpr
+//@   assert[C02,C07] no-body-run-after-next: !$sawNext @ Evaluator.evalStatement
 //@   assert[C02] pattern-is-the-rules-own: arg1 == rule.Pattern && rule.Pattern != nil @ Evaluator.evalExpr
 //@   assert[C02] body-runs-iff-pattern-absent-or-truthy: arg1 == rule.Body && (rule.Pattern == nil || ($lastExprArg == rule.Pattern && $lastTruthy)) @ Evaluator.evalStatement
-//@   loop 0 invariant protocol: evInv(e, old(e.stackTop)) && e.ruleRoot == old(e.ruleRoot)
+//@   loop 0 invariant protocol: evInv(e, old(e.stackTop)) && e.ruleRoot == old(e.ruleRoot) && !$sawNext
 
 //@ func Evaluator.evalPatternRules [C01,C02,C08,C11]
 //@   modifies valueHeap, e.stackTop, e.returnVal, e.ruleRoot
